@@ -28,7 +28,7 @@ def main():
             raise common.InfraError("pipeline worker failed:\n" + o["harness_exception"])
     if ck.replay_arg is None:
         outs += sched_lib.corpus(ck, 400 if ck.thorough else 40)
-        outs += serial_lib.stub(ck.rng, 20000 if ck.thorough else 2000)
+        outs += serial_lib.stub(serial_lib.stub_rng(ck.seed), 20000 if ck.thorough else 2000)
     st = serial_lib.stage(ck, outs)
     ck.finish(dict(st, evaluations=st["serial_model_requests"] + st["serial_spec_requests"], distinct_nontrivial=st["serial_distinct_nontrivial"],
                    programs=len(outs),
